@@ -22,7 +22,7 @@ pub struct ExpertCfg {
     pub configs: Vec<Vec<usize>>,
 }
 
-const N_CHILD: usize = 6;
+const N_CHILD: usize = 7;
 
 struct DepRec {
     serial: u64,
@@ -173,6 +173,8 @@ impl Refm {
             2 => self.vars[2],
             3 => norm(self.vars[0] + 1),
             4 => norm(self.vars[1] + self.bsel),
+            // a map_ref child: the first component of zip(vars[2], vars[0])
+            6 => self.vars[2],
             _ => 5,
         }
     }
@@ -261,6 +263,9 @@ pub fn run_on_this_thread(plan: &Plan, keep_trace: bool) -> RunOutput {
         let kill: Var<i64> = state.var(0i64);
         let shared_child = vars[0].map(|x| norm(*x + 1));
         let konst = state.constant(5i64);
+        // a child that is a projection (map_ref): it passes change notifications on to its
+        // dependants itself
+        let ref_child: Incr<i64> = vars[2].watch().zip(&vars[0].watch()).map_ref(|p: &(i64, i64)| &p.0);
         // the bind whose closure builds the invalidatable child
         let b_main = {
             let v1 = vars[1].watch();
@@ -327,11 +332,13 @@ pub fn run_on_this_thread(plan: &Plan, keep_trace: bool) -> RunOutput {
             let vars: Vec<Incr<i64>> = vars.iter().map(|v| v.watch()).collect();
             let shared_child = shared_child.clone();
             let konst = konst.clone();
+            let ref_child = ref_child.clone();
             let sh = sh.clone();
             move |i: usize| -> (Incr<i64>, u64) {
                 match i {
                     0 | 1 | 2 => (vars[i].clone(), 0),
                     3 => (shared_child.clone(), 0),
+                    6 => (ref_child.clone(), 0),
                     4 => (sh.cur_inner.borrow().clone().expect("bind has not run"), sh.b_gen.get()),
                     _ => (konst.clone(), 0),
                 }
@@ -429,7 +436,7 @@ pub fn run_on_this_thread(plan: &Plan, keep_trace: bool) -> RunOutput {
         };
         let joined = join(&outer_incr);
         let ebound = {
-            let kids: Vec<Incr<i64>> = vec![vars[0].watch(), vars[1].watch(), vars[2].watch(), shared_child.clone(), b_main.clone(), konst.clone()];
+            let kids: Vec<Incr<i64>> = vec![vars[0].watch(), vars[1].watch(), vars[2].watch(), shared_child.clone(), b_main.clone(), konst.clone(), ref_child.clone()];
             ebind(outer.watch(), move |j: &usize| kids[*j % N_CHILD].clone())
         };
         let outputs: Vec<Incr<i64>> = vec![
@@ -553,6 +560,10 @@ pub fn run_on_this_thread(plan: &Plan, keep_trace: bool) -> RunOutput {
             if !lines.is_empty() {
                 let at = sh.log.borrow().len();
                 for l in lines {
+                    // the expert node's own counters are C14's business as well
+                    if l.starts_with("expert node") {
+                        sh.viol.borrow_mut().push(Violation { property: "C14", rule: "bookkeeping", at, detail: l.clone() });
+                    }
                     sh.viol.borrow_mut().push(Violation { property: "C11", rule: "audit", at, detail: l });
                 }
             }
